@@ -101,20 +101,39 @@ pub fn pattern(l: L, ing: Ing) -> u128 {
             }
         }
         4 => {
-            let lb = if w >= 64 { 32 } else { w / 2 };
+            // limb patterns: 32-bit limbs (half the width below 64 bits), or 64-bit limbs for the 128-bit types
+            let lb = if w == 128 && (r2 >> 100) & 1 == 1 { 64 } else if w >= 64 { 32 } else { w / 2 };
             let mut v = 0u128;
             let mut i = 0;
             let mut sel = r2;
+            let mut below = 0u128;
             while i * lb < w {
                 let limb_mask = (1u128 << lb) - 1;
-                let limb = match sel & 3 {
+                let h = r1.rotate_left(29 * i + 7) ^ r2.rotate_left(11 * i);
+                let limb = match sel & 7 {
                     0 => 0,
                     1 => limb_mask,
                     2 => 1u128 << (lb - 1),
+                    // related to the limb below: equal, complement, or its low k bits with one bit flipped under a
+                    // sign-like fill (fields of two limbs that collide or cancel)
+                    4 if i > 0 => below,
+                    5 if i > 0 => !below & limb_mask,
+                    6 if i > 0 => {
+                        let k = 1 + (h % lb as u128) as u32;
+                        let keep = if k >= lb { limb_mask } else { (1u128 << k) - 1 };
+                        let j = ((h >> 8) % k as u128) as u32;
+                        let low = (below ^ (1u128 << j)) & keep;
+                        if (h >> 16) & 1 == 1 {
+                            low | (limb_mask & !keep)
+                        } else {
+                            low
+                        }
+                    }
                     _ => (r1 >> (i * lb % 128)) & limb_mask,
                 };
                 v |= limb << (i * lb);
-                sel >>= 2;
+                below = limb;
+                sel >>= 3;
                 i += 1;
             }
             v
